@@ -43,7 +43,59 @@ func (c01) ExhaustiveNote(tier string) (bool, string) {
 	return false, "sub-space enumerated completely: all 64 digraphs on 3 nodes x 6 name-rank assignments (edge kind rotating); the random part is sampled"
 }
 
+// ppDependency: a component that is wired into a post-processor is created before the refresh, while
+// only part of the post-processor chain is active. It is still one singleton: what the post-processor
+// holds, what ordinary holders receive later and what the by-name lookup returns are one object - also
+// when a processor that joins the chain later would have wrapped it.
+func (p c01) ppDependency(c *core.Ctx) {
+	g := world.NewG(c.Rng)
+	tgt := g.AddNode([]int{0, 1, 3}[c.Rng.Intn(3)], "np-target")
+	req := g.AddNode([]int{0, 1, 3}[c.Rng.Intn(3)], "np-req")
+	for x := 0; x < 1+c.Rng.Intn(3); x++ {
+		h := g.AddRandomNode(plainAB, 0.2)
+		g.SetTag(h, []string{"IA0", "Any0"}[c.Rng.Intn(2)], "wire", []string{"np-target", "np-req"}[c.Rng.Intn(2)])
+	}
+	g.ShuffleOrders()
+	plan := map[string]world.SubPlan{}
+	for _, nm := range []string{"np-target", "np-req"} {
+		if c.Rng.Intn(3) > 0 {
+			plan[nm] = []world.SubPlan{{After: true}, {Before: true}, {Early: true}}[c.Rng.Intn(3)]
+		}
+	}
+	pp := &world.NamePP{}
+	r := world.Start(g.Sc, world.Options{Extra: []any{pp, world.NewSubstituter(plan)}})
+	c.Count("starts", 1)
+	c.Count("post_processor_dependency_starts", 1)
+	detail := failDetail(g.Sc, r, map[string]any{"substitution_plan": plan})
+	if r.Outcome() != "ok" {
+		if abnormal(r.Outcome()) {
+			c.Fail("", "post-processor with dependencies: "+core.Short(r.OutcomeDetail(), 300), detail)
+		}
+		return
+	}
+	problems := r.CheckIdentity(world.Describe(r.Population()))
+	for nm, held := range map[string]any{"np-target": pp.One, "np-target (any)": pp.AnyOne, "np-req": pp.Req} {
+		name := strings.Fields(nm)[0]
+		var got any
+		var err error
+		r.Guard(func() { got, err = r.App.GetComponentByName(name) })
+		if err != nil || got != held {
+			problems = append(problems, fmt.Sprintf("the post-processor holds %p (%T) for %q, the by-name lookup returns %p (%T) %v", held, held, name, got, got, err))
+		}
+	}
+	_, _ = tgt, req
+	if len(problems) > 0 {
+		c.Fail("", problems[0], detail)
+		return
+	}
+	c.Nontrivial("ppdep|" + g.Sc.GraphSig() + fmt.Sprint(plan))
+}
+
 func (p c01) Run(c *core.Ctx) {
+	if c.Index%16 == 7 && c.Index < p.randomCount(c.Tier) {
+		p.ppDependency(c)
+		return
+	}
 	var sc *world.Scenario
 	orders := tierN(c.Tier, 3, 5)
 	rc := p.randomCount(c.Tier)
@@ -155,6 +207,37 @@ func (p c01) Run(c *core.Ctx) {
 		problems := r.CheckIdentity(pop)
 		if plan == nil {
 			problems = append(problems, checkGetComponents(r, pop)...)
+		}
+		// a lookup under a name nothing is registered under - e.g. the default (type) name of a component
+		// that carries a custom name - either fails or is an alias of what is published: it never produces
+		// a further copy of a singleton
+		{
+			publishedObj := map[any]bool{}
+			unnamedType := map[int]bool{}
+			for i := range sc.Nodes {
+				if sc.Nodes[i].Name == "" {
+					unnamedType[sc.Nodes[i].Type] = true
+				}
+				var o any
+				r.Guard(func() { o, _ = r.App.GetComponentByName(sc.Nodes[i].DisplayName()) })
+				if o != nil {
+					publishedObj[o] = true
+				}
+			}
+			for i := range sc.Nodes {
+				if sc.Nodes[i].Name == "" || unnamedType[sc.Nodes[i].Type] {
+					continue
+				}
+				dn := world.Palette[sc.Nodes[i].Type].DefaultName
+				var o any
+				var err error
+				r.Guard(func() { o, err = r.App.GetComponentByName(dn) })
+				c.Count("lookups_under_unregistered_type_names", 1)
+				if err == nil && o != nil && !publishedObj[o] {
+					problems = append(problems, fmt.Sprintf("GetComponentByName(%q): nothing is registered under that name (the %s instances carry custom names), yet the lookup returned %p - an object that is not the published instance of any registered name", dn, world.Palette[sc.Nodes[i].Type].TypeName, o))
+					break
+				}
+			}
 		}
 		ev := r.Tracer.Events()
 		for name, k := range EarlyRunsPerCreation(ev) {
